@@ -7,6 +7,7 @@
 -/
 import CRModel.PyExt
 import CRModel.Index
+import CRModel.ShapeObj
 namespace CR.Py06
 open CR CR.Geom CR.Index
 
@@ -99,16 +100,6 @@ def strQueryDwithin (within : Rat → List Pt → Pt → Bool) (tree : Option (L
 
 /-! ### numpy on vertex arrays -/
 
-/-- `np.min(vertices, axis=0)` (the empty array raises in numpy; here the origin). -/
-def colMin : List Pt → Pt
-  | [] => ⟨0, 0⟩
-  | v :: vs => vs.foldl (fun m u => ⟨min m.x u.x, min m.y u.y⟩) v
-
-/-- `np.max(vertices, axis=0)`. -/
-def colMax : List Pt → Pt
-  | [] => ⟨0, 0⟩
-  | v :: vs => vs.foldl (fun m u => ⟨max m.x u.x, max m.y u.y⟩) v
-
 /-- `np.less_equal(a, b)` on two 2-vectors: the element-wise answers. -/
 def lessEqual (a b : Pt) : List Bool := [decide (a.x ≤ b.x), decide (a.y ≤ b.y)]
 
@@ -127,34 +118,6 @@ def rotateTranslate (vs : List Pt) (ctr : Pt) (cs : Rat × Rat) : List Pt := vs.
 
 /-- `is_valid_polyline(a)` (common/validity.py) for an n×2 array of reals: at least two points. -/
 def isValidPolyline (pts : List Pt) : Bool := decide (2 ≤ pts.length)
-
-/-! ### objects of shape.py as records of the attributes the containment tests and exports read -/
-
-/-- A `Polygon` object: `_min`, `_max` (bounding box corners) and `_shapely_polygon` (its vertex ring). -/
-structure PolyShape where
-  min : Pt
-  max : Pt
-  ring : List Pt
-  deriving DecidableEq, Repr
-
-/-- A `Circle` object: `_radius`, `_center`, and `_shapely_circle` — the exported geometry `Point(c).buffer(ρ)` as the
-    pair (c, ρ) (the disc of radius ρ around c), `none` while the attribute holds `None`. -/
-structure CircObj where
-  radius : Rat
-  center : Pt
-  shapely : Option (Pt × Rat)
-  deriving DecidableEq, Repr
-
-/-- A `Rectangle` object: `_length`, `_width`, `_center`, `_orientation` (as the pair (cos θ, sin θ)), the cached
-    `_vertices` and the cached `__shapely_polygon` (its vertex ring); `none` = the attribute holds `None`. -/
-structure RectObj where
-  length : Rat
-  width : Rat
-  center : Pt
-  orientation : Rat × Rat
-  vertices : Option (List Pt)
-  polygon : Option (List Pt)
-  deriving DecidableEq, Repr
 
 /-- `for k, v in self.__dict__.items(): setattr(result, k, copy.deepcopy(v, memo))` on a LaneletNetwork: every
     attribute of `result` is a deep copy of `self`'s — fresh objects (`f` names them), sharing between the lanelets'
